@@ -13,7 +13,10 @@ Decided:
          constructor initialises through reset() or such a binding; in the per-status dict that
          _get_route_stats *reports* (followed through ``ret[k] = cur = {}`` aliases, dict comprehensions,
          dict()/{**} copies and module-level helpers) the 'count' entry taken from total_count is the last
-         writer of that key (describe() brings its own 'count');
+         writer of that key (describe() brings its own 'count');  the endpoints may only look the middleware up and hand
+         over to one of its methods, the summary may be a method of the reservoir: calls are followed into plain methods
+         when the class of the receiver is known from the source (constructor call, selecting isinstance test, ``self``,
+         factory of the defaultdict that reset() builds, every call site of a parameter) -- never from names;
   R19.c  Reservoir: _total_count is incremented exactly once on every path of add(); every append on
          _data and every indexed store is entailed in-bounds by its path condition (difference constraints
          over terms with named temporaries / aliases of self._data looked through) and is the first write of the
@@ -22,7 +25,8 @@ Decided:
          methods writes _data/_cap/_total_count; iteration is over _data (return iter(..) or generator form);
          the subclass delegates to the base add exactly once (super() or explicit base call).
   R19.d  instance custody: the object whose route_hits the stats endpoints read (and reset) is an *element* of
-         ``_application.middlewares`` picked by isinstance(.., StatsMiddleware) -- never a copy or a fresh instance; a bound
+         ``_application.middlewares`` picked by isinstance(.., StatsMiddleware) -- never a copy or a fresh instance (reads /
+         resets inside methods of the middleware count for the receiver of the endpoint's call that led there); a bound
          route's own middleware list is merge(<route level>, <that application's list>) with the application being the one
          later injected as ``_application``; the merge result holds every element of the application-level argument by
          identity (it starts as a copy of it and no element is replaced or removed afterwards -- Middleware.__eq__ compares
@@ -194,12 +198,34 @@ def _request_records_once(rep, repo, st):
 
 # ---- R19.b ---------------------------------------------------------------------------------------------------------
 def _report_before_reset(rep, repo, st):
+    # the report function: the endpoint get_stats_dict and, when that only looks the middleware up and hands over to one of
+    # its methods, that method (and so on)
+    report_funcs = _delegation_chain(repo, st.func('get_stats_dict'))
+
+    def report_calls(fi):
+        out = []
+        for c in walk_body(fi.node):
+            if isinstance(c, ast.Call) and call_tail(c) != 'reset':
+                f = _resolve_call(repo, fi, c)[0] if call_name(c) != 'get_stats_dict' else None
+                if call_name(c) == 'get_stats_dict' or (f is not None and (any(f is g for g in report_funcs) or _reads_table(repo, f))):
+                    out.append(c)
+        return out
+
+    def reset_calls(fi):
+        return [c for c in walk_body(fi.node) if isinstance(c, ast.Call) and call_tail(c) == 'reset']
+    # the function that reports and resets: the endpoint, or the method it hands over to
     gr = st.func('get_and_reset_stats_dict')
+    for f in _delegation_chain(repo, gr):
+        gr = f
+        if report_calls(f) or reset_calls(f):
+            break
     cfg_gr = cfg_of(gr)
     Lg = diffcon.Locals(gr.node, cfg_gr)
     # statements that compute the report / reset the counters (wherever the calls sit in them)
-    rep_st = _uniq(stmt_of(st, c) for c in walk_body(gr.node) if isinstance(c, ast.Call) and call_name(c) == 'get_stats_dict')
-    reset_st = _uniq(stmt_of(st, c) for c in walk_body(gr.node) if isinstance(c, ast.Call) and call_tail(c) == 'reset')
+    rep_calls = report_calls(gr)
+    rep_texts = set(norm(c) for c in rep_calls)
+    rep_st = _uniq(stmt_of(st, c) for c in rep_calls)
+    reset_st = _uniq(stmt_of(st, c) for c in reset_calls(gr))
     if not rep_st and not reset_st:
         raise AnalysisError('get_and_reset_stats_dict: neither a get_stats_dict(...) nor a reset() call found')
     rep_nodes = cfg_gr.nodes_of_all(rep_st)
@@ -215,7 +241,18 @@ def _report_before_reset(rep, repo, st):
         via = []
         v = Lg.resolve(r.value, r, via=via) if r.value is not None else None
         src = [s_ for s_ in via + [r] if s_ in rep_st]
-        ok = ok and v is not None and bool(src) and any(isinstance(c, ast.Call) and call_name(c) == 'get_stats_dict' for c in ast.walk(v))
+        good = v is not None and bool(src) and any(isinstance(c, ast.Call) and norm(c) in rep_texts for c in ast.walk(v))
+        if not good and v is not None:
+            # ``ret = self.get_stats_dict(); self.reset(); return ret``: the name cannot be read as its expression any more (the
+            # reset changes what that would compute) but the object it holds is the one bound by the report statement
+            r_nodes = [n for n in cfg_gr.nodes_of(r) if cfg_gr.reachable(n)]
+            for n in ast.walk(v):
+                if isinstance(n, ast.Name) and isinstance(n.ctx, ast.Load) and r_nodes:
+                    d = Lg.reaching(n.id, r_nodes)
+                    if d is not None and d in rep_st and \
+                            any(isinstance(c, ast.Call) and norm(c) in rep_texts for c in ast.walk(Lg._value[(id(d), n.id)])):
+                        good = True
+        ok = ok and good
     rep.check('R19.b', fkey(gr, 'returns report'), ok, 'the pre-reset report is what is returned' if ok else
               'the returned value is not the pre-reset report', st, gr.node)
     ok = bool(reset_st) and cfg_gr.must_pass(cfg_gr.nodes_of_all(reset_st), cfg_gr.entry, cfg_gr.exit)
@@ -238,6 +275,55 @@ def _report_before_reset(rep, repo, st):
     ok = bool(starts) and cfg_i.must_pass(cfg_i.nodes_of_all(starts), cfg_i.entry, cfg_i.exit)
     rep.check('R19.b', fkey(init, 'reset()'), ok, 'constructor initialises the counters (through reset() / a fresh mapping)' if ok else
               'constructor no longer initialises the counters through reset()', st, init.node)
+
+
+def _reads_table(repo, fi, depth=0, seen=()):
+    """``fi`` (a function of the stats module) computes from the counters: it reads <x>.route_hits itself or through the functions
+    / methods it calls, and never resets them"""
+    if fi.mod.name != STATS or depth > 3 or any(fi is f for f in seen):
+        return False
+    reads = False
+    for n in walk_body(fi.node):
+        if isinstance(n, ast.Call) and call_tail(n) == 'reset':
+            return False
+        if isinstance(n, ast.Attribute) and n.attr == 'route_hits':
+            if not isinstance(n.ctx, ast.Load):
+                return False
+            reads = True
+    if reads:
+        return True
+    for n in walk_body(fi.node):
+        if isinstance(n, ast.Call):
+            f = _resolve_call(repo, fi, n)[0]
+            if f is not None and _reads_table(repo, f, depth + 1, tuple(seen) + (fi,)):
+                return True
+    return False
+
+
+def _delegation_chain(repo, fi, depth=3):
+    """[fi, f1, f2 ..]: ``fi`` whose every return hands over to one call of f1 (a module-level function / a method of an object
+    whose class is known -- named temporaries looked through), f1 likewise to f2, ..."""
+    out = [fi]
+    while len(out) <= depth:
+        cur = out[-1]
+        rets = returns_of(cur)
+        if not rets or any(r.value is None for r in rets):
+            break
+        L = diffcon.Locals(cur.node, cfg_of(cur))
+        nxt = []
+        for r in rets:
+            via = []
+            v = L.resolve(r.value, r, via=via)
+            # the call as written (in the return or in the one binding the returned name stands for): resolved where it sits
+            orig = r.value if isinstance(r.value, ast.Call) else (L.binding(r.value.id, r) or (None,))[0] if isinstance(r.value, ast.Name) else None
+            if not isinstance(v, ast.Call) or not isinstance(orig, ast.Call):
+                nxt = []
+                break
+            nxt.append(_resolve_call(repo, cur, orig)[0])
+        if not nxt or nxt[0] is None or any(f is not nxt[0] for f in nxt) or any(nxt[0] is f for f in out):
+            break
+        out.append(nxt[0])
+    return out
 
 
 def _reported_count(rep, repo, st):
@@ -465,11 +551,16 @@ def _selection(e):
     return None
 
 
-def _judge_instance_source(repo, fi, L, expr, anchor, depth=0):
+def _judge_instance_source(repo, fi, L, expr, anchor, depth=0, ctx=None):
     """Where does the stats middleware object ``expr`` (evaluated by statement ``anchor`` of ``fi``) come from?
     -> (True, text) it is an element of <APP_PARAM>.middlewares chosen by isinstance(.., StatsMiddleware);
-       (False, why) it is something else for sure;  raises AnalysisError when it cannot be followed."""
+       (False, why) it is something else for sure;  raises AnalysisError when it cannot be followed.
+    ``ctx`` = (calling function, receiver expression, call node, its own ctx) when ``fi`` is a method reached through that call:
+    its ``self`` is that receiver."""
     e = L.resolve(expr, anchor)
+    if isinstance(e, ast.Name) and ctx is not None and e.id == _self_name(fi) and not L.counts.get(e.id):
+        cfi, crecv, ccall, pctx = ctx
+        return _judge_instance_source(repo, cfi, diffcon.Locals(cfi.node, cfg_of(cfi)), crecv, stmt_of(cfi.mod, ccall), depth, pctx)
     for c in ast.walk(e):
         if isinstance(c, ast.Call) and (call_name(c) in ('StatsMiddleware', 'copy', 'deepcopy') or call_tail(c) in ('copy', 'deepcopy', '__class__')
                                         or (isinstance(c.func, ast.Call) and call_name(c.func) == 'type')):
@@ -488,7 +579,7 @@ def _judge_instance_source(repo, fi, L, expr, anchor, depth=0):
         return _judge_list(fi, L, g.iter, anchor)
     if isinstance(e, ast.Name) and len(L.defs.get(e.id, [])) > 1 and depth < 3:
         # one binding per branch / handler (``except IndexError: mw = <fallback>``): each of them is what may be read
-        out = [_judge_instance_source(repo, fi, L, L._value[(id(b), e.id)], b, depth + 1) for b in L.defs[e.id]]
+        out = [_judge_instance_source(repo, fi, L, L._value[(id(b), e.id)], b, depth + 1, ctx) for b in L.defs[e.id]]
         bad = [o for o in out if not o[0]]
         return bad[0] if bad else out[0]
     if isinstance(e, ast.Name):
@@ -529,22 +620,40 @@ def _judge_list(fi, L, it, anchor):
 
 def _report_reads_running_instance(rep, repo, st):
     # (1) the report / reset side: whose route_hits, whose reset()
+    # the module-level functions of the stats module, and the methods they run on an object whose class is known (``self`` of
+    # such a method is the receiver of the call that led there)
     sites = []
+
+    def visit(fi, ctx, seen):
+        for n in walk_body(fi.node):
+            if isinstance(n, ast.Attribute) and isinstance(n.ctx, ast.Load) and n.attr == 'route_hits':
+                sites.append((fi, n.value, n, 'reads %s.route_hits' % norm(n.value), ctx))
+            elif isinstance(n, ast.Call) and isinstance(n.func, ast.Attribute) and n.func.attr == 'reset' and not n.args:
+                sites.append((fi, n.func.value, n, 'calls %s.reset()' % norm(n.func.value), ctx))
+            if isinstance(n, ast.Call) and isinstance(n.func, ast.Attribute) and len(seen) < 5:
+                callee, recv = _resolve_call(repo, fi, n)
+                if callee is not None and recv is not None and callee.mod is st and not any(callee is f for f in seen):
+                    visit(callee, (fi, recv, n, ctx), seen + [callee])
     for fi in st.functions.values():
         if fi.cls is not None or fi.mod is not st:
             continue
-        for n in walk_body(fi.node):
-            if isinstance(n, ast.Attribute) and isinstance(n.ctx, ast.Load) and n.attr == 'route_hits':
-                sites.append((fi, n.value, n, 'reads %s.route_hits' % norm(n.value)))
-            elif isinstance(n, ast.Call) and isinstance(n.func, ast.Attribute) and n.func.attr == 'reset' and not n.args:
-                sites.append((fi, n.func.value, n, 'calls %s.reset()' % norm(n.func.value)))
+        visit(fi, None, [fi])
     if len(sites) < 2:
         raise AnalysisError('stats endpoints: expected a read of <mw>.route_hits and a <mw>.reset() call, found %d' % len(sites))
-    for fi, recv, node, what in sites:
+    verdicts = {}       # a method reached from several endpoints: one obligation per site, failing if any way to it fails
+    order = []
+    for fi, recv, node, what, ctx in sites:
         anchor = stmt_of(st, node)
         L = diffcon.Locals(fi.node, cfg_of(fi))
-        ok, why = _judge_instance_source(repo, fi, L, recv, anchor)
-        rep.check('R19.d', fkey(fi, what), ok, '%s: %s' % (what, why) if ok else
+        ok, why = _judge_instance_source(repo, fi, L, recv, anchor, ctx=ctx)
+        k = fkey(fi, what)
+        if k not in verdicts:
+            order.append(k)
+        if k not in verdicts or (verdicts[k][0] and not ok):
+            verdicts[k] = (ok, why, what, node)
+    for k in order:
+        ok, why, what, node = verdicts[k]
+        rep.check('R19.d', k, ok, '%s: %s' % (what, why) if ok else
                   '%s, but %s: the counters shown / reset are not the ones the routes of the application add to' % (what, why), st, node)
     # (2) a bound route's list: merge(<route level>, <application level>), the application being the one injected later
     route = repo.mod('clastic.route')
@@ -731,7 +840,7 @@ def _reported_values(repo, fi, depth=0):
                 elif any(isinstance(t, ast.Name) and t.id == v.id for t in s.targets) and isinstance(s.value, ast.DictComp):
                     out.append((fi, s.value.value))
         elif isinstance(v, ast.Call) and depth < 3:
-            callee = _callee(repo, fi, v)
+            callee, _recv = _resolve_call(repo, fi, v, r)
             if callee is not None:
                 out.extend(_reported_values(repo, callee, depth + 1))
     return out
@@ -749,6 +858,200 @@ def _callee(repo, fi, call):
     return None
 
 
+# ---- which class an object is of (public methods are not dissolved by the loader: calls on an object are followed when its
+#      class is known from the source) -----------------------------------------------------------------------------------
+# abstract values: ('inst', ClassInfo) an instance of that class of the analysed tree; ('map', T) a mapping whose values
+# are T; None: unknown.  Nothing is guessed from names: a class is known from a constructor call, an isinstance test that
+# selected the object, the method the code sits in (``self``), the factory of a defaultdict, the attribute bindings of the
+# owning class, or -- for a parameter -- from every call site of the function.
+def _internal_class(repo, mod, expr):
+    try:
+        r = repo.resolve_class(mod, expr)
+    except Exception:
+        return None
+    return r if hasattr(r, 'methods') and not r.mod.external else None
+
+
+def _join(ts):
+    ts = list(ts)
+    if not ts or any(t is None for t in ts):
+        return None
+    return ts[0] if all(t == ts[0] for t in ts[1:]) else None
+
+
+def _self_name(fi):
+    """name of the instance parameter of a plain method (no decorator: not static / class method / property), else None"""
+    if fi.cls is None or fi.node.decorator_list or not fi.node.args.args:
+        return None
+    return fi.node.args.args[0].arg
+
+
+def _isinstance_class(repo, mod, test, name):
+    """``isinstance(<name>, C)`` somewhere in a conjunct of ``test`` -> the internal class C, else None"""
+    parts = test.values if isinstance(test, ast.BoolOp) and isinstance(test.op, ast.And) else [test]
+    for c in parts:
+        if isinstance(c, ast.Call) and call_name(c) == 'isinstance' and len(c.args) == 2 and norm(c.args[0]) == name:
+            ci = _internal_class(repo, mod, c.args[1])
+            if ci is not None:
+                return ci
+    return None
+
+
+def _type_of(repo, fi, expr, anchor, depth=0, look=True):
+    """abstract value (see above) of ``expr`` as evaluated by statement ``anchor`` of function ``fi``"""
+    if depth > 8 or expr is None:
+        return None
+    mod = fi.mod
+    e = expr
+    if look and anchor is not None:
+        try:
+            cfg = cfg_of(fi)
+            if cfg.nodes_of(anchor):
+                e = diffcon.Locals(fi.node, cfg).resolve(expr, anchor)
+        except AnalysisError:
+            e = expr
+    nxt = lambda x: _type_of(repo, fi, x, anchor, depth + 1, look=False)
+    comp = _selection(e)
+    if comp is not None and len(comp.generators) == 1 and isinstance(comp.generators[0].target, ast.Name):
+        g = comp.generators[0]
+        if isinstance(comp.elt, ast.Name) and comp.elt.id == g.target.id:
+            for i in g.ifs:
+                ci = _isinstance_class(repo, mod, i, g.target.id)
+                if ci is not None:
+                    return ('inst', ci)
+        return None
+    if isinstance(e, ast.Call):
+        tail = call_tail(e)
+        if isinstance(e.func, ast.Name) or (isinstance(e.func, ast.Attribute) and isinstance(e.func.value, ast.Name)):
+            ci = _internal_class(repo, mod, e.func)
+            if ci is not None:
+                return ('inst', ci)
+        if tail == 'defaultdict' and e.args:
+            f = e.args[0]
+            if isinstance(f, ast.Lambda):
+                a = f.args
+                if not (a.args or a.posonlyargs or a.kwonlyargs or a.vararg or a.kwarg):
+                    t = nxt(f.body)
+                    return ('map', t) if t is not None else None
+                return None
+            ci = _internal_class(repo, mod, f) if isinstance(f, (ast.Name, ast.Attribute)) else None
+            return ('map', ('inst', ci)) if ci is not None else None
+        if call_name(e) in ('copy', 'deepcopy', 'copy.copy', 'copy.deepcopy') and len(e.args) == 1 and not e.keywords:
+            return nxt(e.args[0])       # a copy is of the class of its original
+        if tail == 'dict' and isinstance(e.func, ast.Name) and len(e.args) == 1 and not e.keywords:
+            t = nxt(e.args[0])
+            return t if t is not None and t[0] == 'map' else None
+        callee, _recv = _resolve_call(repo, fi, e, anchor, depth + 1)
+        if callee is not None:
+            rets = [r for r in returns_of(callee) if r.value is not None]
+            return _join(_type_of(repo, callee, r.value, r, depth + 2) for r in rets)
+        return None
+    if isinstance(e, ast.Subscript) and not isinstance(e.slice, ast.Slice):
+        t = nxt(e.value)
+        return t[1] if t is not None and t[0] == 'map' else None
+    if isinstance(e, ast.Attribute):
+        t = nxt(e.value)
+        if t is None or t[0] != 'inst':
+            return None
+        # every binding ``self.<attr> = v`` in the methods of that class (and its bases) must agree
+        found = []
+        for c in repo.mro(t[1]):
+            if not hasattr(c, 'methods') or c.mod.external:
+                continue
+            for m in c.methods.values():
+                sn = _self_name(m)
+                for s in stmts_of(m.node):
+                    for tg, v in _assign_pairs(s):
+                        if isinstance(tg, ast.Attribute) and tg.attr == e.attr and isinstance(tg.value, ast.Name) and tg.value.id == sn:
+                            found.append(_type_of(repo, m, v, s, depth + 2))
+                    if isinstance(s, ast.AugAssign) and isinstance(s.target, ast.Attribute) and s.target.attr == e.attr:
+                        found.append(None)
+        return _join(found)
+    if isinstance(e, ast.Name):
+        name = e.id
+        L = diffcon.Locals(fi.node, cfg_of(fi))
+        if name == _self_name(fi) and not L.counts.get(name):
+            return ('inst', fi.cls)
+        if name in L.defs and len(L.defs[name]) > 1:
+            return _join(_type_of(repo, fi, L._value[(id(b), name)], b, depth + 1) for b in L.defs[name])
+        if name in L.params and not L.counts.get(name):
+            return _param_type(repo, fi, name, depth + 1)
+        if L.counts.get(name) != 1:
+            return None
+        # the one binder of this name: a loop / comprehension target over the values of a mapping
+        for n in ast.walk(fi.node):
+            tgt = it = None
+            if isinstance(n, ast.For):
+                tgt, it = n.target, n.iter
+            elif isinstance(n, ast.comprehension):
+                tgt, it = n.target, n.iter
+            if tgt is None or not any(isinstance(x, ast.Name) and x.id == name for x in ast.walk(tgt)):
+                continue
+            binder = n if isinstance(n, ast.For) else stmt_of(mod, it)
+            if isinstance(it, ast.Call) and isinstance(it.func, ast.Attribute) and not it.args and not it.keywords:
+                if (it.func.attr == 'values' and isinstance(tgt, ast.Name)) or \
+                        (it.func.attr == 'items' and isinstance(tgt, (ast.Tuple, ast.List)) and len(tgt.elts) == 2 and
+                         isinstance(tgt.elts[1], ast.Name) and tgt.elts[1].id == name):
+                    t = _type_of(repo, fi, it.func.value, binder, depth + 1)
+                    if t is not None and t[0] == 'map':
+                        return t[1]
+            # an element picked by an isinstance test on the way to the use
+            if isinstance(tgt, ast.Name) and anchor is not None:
+                for t_, p in conds(fi, anchor):
+                    if p is True:
+                        ci = _isinstance_class(repo, mod, t_, name)
+                        if ci is not None:
+                            return ('inst', ci)
+            return None
+    return None
+
+
+def _param_type(repo, fi, name, depth):
+    """what every call site of ``fi`` (calls by plain name / method calls on an object of known class, in the module of ``fi``)
+    passes for parameter ``name``"""
+    if depth > 8:
+        return None
+    ps = fi.params()
+    sn = _self_name(fi)
+    pos = ps.index(name) - (1 if sn else 0)
+    found = []
+    for other in fi.mod.functions.values():
+        for c in walk_body(other.node):
+            if not isinstance(c, ast.Call) or call_tail(c) != fi.name:
+                continue
+            anchor = stmt_of(fi.mod, c)
+            callee, _recv = _resolve_call(repo, other, c, anchor, depth + 1)
+            if callee is not fi:
+                if callee is None and isinstance(c.func, ast.Attribute):
+                    return None         # may be a call of this method on an object we cannot type
+                continue
+            if any(isinstance(a, ast.Starred) for a in c.args) or any(k.arg is None for k in c.keywords):
+                return None
+            kw = [k.value for k in c.keywords if k.arg == name]
+            arg = kw[0] if kw else (c.args[pos] if 0 <= pos < len(c.args) else None)
+            found.append(_type_of(repo, other, arg, anchor, depth + 1))
+    return _join(found)
+
+
+def _resolve_call(repo, fi, call, anchor=None, depth=0):
+    """(FuncInfo, receiver expression or None) of the function of the analysed tree a call runs: a module-level function
+    called by plain name, or a plain method called on an object whose class is known; (None, None) otherwise."""
+    if not isinstance(call, ast.Call):
+        return None, None
+    f = _callee(repo, fi, call)
+    if f is not None:
+        return f, None
+    if isinstance(call.func, ast.Attribute) and depth <= 8:
+        if anchor is None:
+            anchor = stmt_of(fi.mod, call)
+        t = _type_of(repo, fi, call.func.value, anchor, depth + 1)
+        if t is not None and t[0] == 'inst':
+            m = repo.find_method(t[1], call.func.attr)
+            if m is not None and not m.mod.external and _self_name(m) is not None:
+                return m, call.func.value
+    return None, None
+
+
 def _dict_layers(repo, fi, expr, depth=0):
     """Layers (vt.layers) of the dict ``expr`` denotes in function ``fi``: locals are followed to their construction
     and later updates, ``dict(x)`` / ``{**x}`` copies to x, calls of module-level helpers to what they return."""
@@ -761,8 +1064,9 @@ def _dict_layers(repo, fi, expr, depth=0):
             return [Layer('source', norm(expr), expr)]
     elif isinstance(expr, ast.Dict) or (isinstance(expr, ast.Call) and isinstance(expr.func, ast.Name) and expr.func.id == 'dict'):
         ls = layers_of_expr(expr)
-    elif _callee(repo, fi, expr) is not None:
-        callee = _callee(repo, fi, expr)
+    elif _resolve_call(repo, fi, expr)[0] is not None:
+        # a module-level helper, or a method of the object the entry is computed from (its class known): what it returns
+        callee = _resolve_call(repo, fi, expr)[0]
         rets = returns_of(callee)
         if len(rets) != 1 or rets[0].value is None:
             return [Layer('source', norm(expr), expr)]
@@ -801,8 +1105,10 @@ def _mentions_describe(fi, layer):
     e = n
     try:
         anchor = stmt_of(fi.mod, n)
-        if anchor is not None and cfg_of(fi).nodes_of(anchor):
-            e = diffcon.Locals(fi.node, cfg_of(fi)).resolve(n, anchor)
+        fnode = fi.mod.enclosing_function(n)
+        own = fi.mod.func_of_node(fnode) if fnode is not None else None     # (the layer may sit in a helper / method that was followed)
+        if own is not None and anchor is not None and cfg_of(own).nodes_of(anchor):
+            e = diffcon.Locals(own.node, cfg_of(own)).resolve(n, anchor)
     except AnalysisError:
         pass
     return any(isinstance(c, ast.Call) and call_tail(c) == 'describe' for c in ast.walk(e))
